@@ -79,6 +79,8 @@ def _sspor_case(ctx, rng, idx):
     ns = rng.choice([None, rng.randint(1, nf)])
     ok = rng.choice(["qr", "ccqr", "gqr"])
     desc = {"X": X.tolist(), "basis": bk, "n_modes": nm, "seed": seed, "n_sensors": ns, "opt": ok, "xk": xk}
+    # storage type of the training matrix: counts and raw images are integer arrays (the Identity basis keeps that dtype)
+    desc["dtype"] = rng.choice(["float64"] * 4 + ["int64", "int32", "uint8", "float32"])
     # the model's life after the fit: accepted and REJECTED setter calls, read-only calls – the ranking and the
     # selection are judged in the state they leave behind
     post = []
@@ -108,6 +110,9 @@ def _run_sspor(ctx, desc, rng=None):
     from pysensors.optimizers import CCQR, GQR, QR
     from pysensors.reconstruction import SSPOR
     X = np.array(desc["X"], dtype=float)
+    dt = desc.get("dtype", "float64")
+    if dt != "float64" and np.array_equal(np.round(X), X):
+        X = (np.abs(X) if dt == "uint8" else X).astype(dt)
     ne, nf = X.shape
     bk, nm, seed, ns, ok = desc["basis"], desc["n_modes"], desc["seed"], desc["n_sensors"], desc["opt"]
     basis = models.make_basis(bk, nm)
@@ -215,8 +220,10 @@ def run(ctx: C.Ctx):
                           broken="correspondence pivLoop ↔ CCQR/GQR.fit bookkeeping (theorem pivLoop_perm)")
     # ---- SSPOR level --------------------------------------------------------------
     lean_reqs = []
-    for idx in range(n_sspor):
-        desc = _sspor_case(ctx, rng, idx)
+    import glob, json
+    corpus = [json.load(open(f))["case"] for f in sorted(glob.glob(str(C.VERIF / "corpus" / "C01" / "*.json")))]
+    for idx in range(-len(corpus), n_sspor):
+        desc = dict(corpus[idx + len(corpus)]) if idx < 0 else _sspor_case(ctx, rng, idx)
         X = np.array(desc["X"])
         nf = X.shape[1]
         if desc["opt"] == "ccqr" and rng.random() < 0.7:
@@ -226,7 +233,11 @@ def run(ctx: C.Ctx):
         try:
             out = _run_sspor(ctx, desc)
         except Exception as e:
-            ctx.count("sspor_exception:" + type(e).__name__)
+            # ValueError is how the package rejects a request (handled inside _run_sspor); anything else means there is no
+            # ranked list for a legitimate training matrix
+            ctx.violation("concrete", f"SSPOR.fit raised {type(e).__name__}: {str(e)[:120]} – no ranking for this training matrix "
+                                      f"({desc['basis']} basis, {desc['opt']} optimizer, dtype {desc.get('dtype')})",
+                          {"signature": "sspor-fit-raises:" + type(e).__name__, "case": desc, "index": idx})
             continue
         _check_sspor(ctx, desc, out, idx, lean_reqs)
         if "final" in out:
